@@ -168,8 +168,8 @@ def _run_terms(ctx: Ctx, terms: list, label: str):
         nontrivial = not isinstance(t, str) and t[0] != "at"
         sample = {"term": sx(t), "model": mo[:60], "impl": str(im.get("tab", im))[:60]}
         ctx.case_done(t, nontrivial, sample)
-        if "__harness_error__" in im:
-            raise common.Infra(im["__harness_error__"] + im.get("tb", ""))
+        if "__harness_error__" in im or "__worker_lost__" in im:
+            raise common.Infra(im.get("__harness_error__", im.get("__worker_lost__", "")) + im.get("tb", ""))
         sig = {"op": t if isinstance(t, str) else t[0]}
         if "error" in im:
             ctx.fail("predicate", {"term": t}, {"impl_error": im}, {"term": sx(t)}, "sel-membership")
